@@ -89,11 +89,13 @@ def check(ctx):
     prog = ctx.prog
     f = prog.func(FN)
     ctx.analysed_fn(FN)
-    ctx.require(f.params[:3] == ["x", "y", "with_scale"],
-                "umeyama_alignment signature changed")
+    from ..lib import extra_defaults
+    extra = extra_defaults(f, ["x", "y", "with_scale"])
+    ctx.require(extra is not None, "umeyama_alignment signature changed")
     x, y = tm.param("x"), tm.param("y")
     for ws in (True, False):
-        r = Interp(prog).run(f, {"with_scale": const(ws)})
+        # parameters added later are analysed at their defaults
+        r = Interp(prog).run(f, dict(extra, with_scale=const(ws)))
         ctx.analysed["configs"] += 1
         svd = r.calls("numpy.linalg.svd")
         ctx.require(len(svd) == 1, "SVD call not found (unknown idiom)")
@@ -162,7 +164,50 @@ def check(ctx):
         if ws:
             cov = svd[0].data["args"][0] if svd[0].data["args"] else None
             prods = []
+
+            def data(o) -> bool:
+                """o depends on the point coordinates (not only on the
+                shape of the arrays)"""
+                if not isinstance(o, T):
+                    return False
+                if o.op == "attr" and o.args[1] in ("shape", "size",
+                                                    "ndim", "dtype"):
+                    return False
+                if is_call_to(o, "builtins.len"):
+                    return False
+                if o.op == "param":
+                    return o.args[0] in ("x", "y")
+                stack = list(o.args)
+                while stack:
+                    a = stack.pop()
+                    if isinstance(a, T):
+                        if data(a):
+                            return True
+                    elif isinstance(a, (tuple, list, frozenset)):
+                        stack.extend(a)
+                return False
+
+            def meanlike(z: T) -> bool:
+                """a (weighted) mean of the data: .mean / np.mean /
+                np.average, or the data matrix times a weight vector that
+                does not depend on the data"""
+                if is_call_to(z, ".mean", "numpy.mean", "numpy.average"):
+                    return True
+                ops = None
+                if z.op == "call" and tm.callee_name(z) == ".dot" and \
+                        len(z.args[1]) == 1:
+                    ops = (tm.method_recv(z), z.args[1][0])
+                elif is_call_to(z, "numpy.dot", "numpy.matmul") and \
+                        len(z.args[1]) == 2:
+                    ops = tuple(z.args[1])
+                elif z.op == "binop" and z.args[0] == "MatMult":
+                    ops = (z.args[1], z.args[2])
+                return bool(ops) and ops[0] is not None and \
+                    ops[0].op == "param" and ops[0].args[0] in ("x", "y") \
+                    and not data(ops[1])
             for t_ in (cov.walk() if cov is not None else []):
+                if meanlike(t_):
+                    continue
                 if t_.op == "call" and tm.callee_name(t_) in (
                         "numpy.outer", "numpy.dot", "numpy.matmul",
                         "numpy.einsum", ".dot") or (
@@ -178,13 +223,13 @@ def check(ctx):
                         prods.append((t_, ops_))
 
             def centred(o: T) -> bool:
-                if any(is_call_to(z, ".mean", "numpy.mean") for z in o.walk()) \
+                if any(meanlike(z) for z in o.walk()) \
                         and not any(z.op == "binop" and z.args[0] == "Sub"
                                     for z in o.walk()):
                     return True        # a mean itself
                 for z in o.walk():
                     if z.op == "binop" and z.args[0] == "Sub" and any(
-                            is_call_to(w, ".mean", "numpy.mean")
+                            meanlike(w)
                             for w in z.args[2].walk()) and (
                             tm.mentions_param(z.args[1], "x") or
                             tm.mentions_param(z.args[1], "y")):
